@@ -22,7 +22,7 @@ from . import c20_tables as tab
 
 MTAU2 = mp.mpf("1.777") ** 2
 FOURPI = 4 * mp.pi
-DPS = 30
+DPS = 24
 
 
 def nl_of(mu2):
